@@ -1,11 +1,1518 @@
-//! C05 — not implemented yet (stub).
-use crate::engine::Ctx;
-use serde_json::Value;
+//! C05 — mixture equilibria: isofugacity, balances, specification.
+//!
+//! Parts
+//! * `lattice`  (success clause, PanicPolicy::Violation): all hydrocarbon pairs of gross2001 with
+//!   pure-T_c ratio < 1.5 x T/T_c,low in {0.65..0.9} x x in {0.05..0.95}: bubble and dew point must
+//!   be Ok, flashes at theta in {0.1,0.5,0.9} of the envelope must be Ok if p_bub/p_dew > 1.05.
+//! * `points`   (soundness): bubble / dew (T- and p-specification) and flash with option pairs and
+//!   initial guesses over PC-SAFT hydrocarbons, other PC-SAFT records, gc-PC-SAFT, SAFT-VR Mie.
+//! * `diagram`  (soundness): `binary_vle` (T and p), `bubble_point_line`, `dew_point_line`.
+//! * `hetero`   (soundness): water/alcohol and water/hydrocarbon: `heteroazeotrope` (T and p),
+//!   `binary_vlle`, `PhaseDiagram::lle`, liquid-liquid `tp_flash`.
+use crate::engine::{Ctx, Gen, Obs, PanicPolicy, PartCfg};
+use crate::model::*;
+use feos::core::{
+    Contributions, DensityInitialization, EosError, PhaseDiagram, PhaseEquilibrium, ReferenceSystem,
+    Residual, SolverOptions, State,
+};
+use ndarray::{arr1, Array1};
+use quantity::*;
+use rayon::prelude::*;
+use serde::{Deserialize, Serialize};
+use serde_json::{json, Value};
+use std::collections::BTreeMap;
+use std::sync::{Arc, LazyLock, Mutex};
 
-pub fn run(_ctx: &Ctx) {
-    panic!("C05: check not implemented yet");
+pub type St = State<Model>;
+pub type Pe2 = PhaseEquilibrium<Model, 2>;
+pub type Pe3 = PhaseEquilibrium<Model, 3>;
+
+// ---------------------------------------------------------------------------------------
+// worst observed residuals (evidence only; never consulted by a verdict)
+// ---------------------------------------------------------------------------------------
+pub static WORST: LazyLock<Mutex<BTreeMap<String, (f64, String)>>> = LazyLock::new(|| Mutex::new(BTreeMap::new()));
+
+thread_local! {
+    static CASE_LABEL: std::cell::RefCell<String> = const { std::cell::RefCell::new(String::new()) };
 }
 
-pub fn replay(_ctx: &Ctx, _part: &str, _case: &Value) -> bool {
-    panic!("C05: check not implemented yet");
+/// label of the case being checked on this thread (attached to the worst-value statistics)
+pub fn set_label(s: String) {
+    CASE_LABEL.with(|l| *l.borrow_mut() = s);
+}
+
+pub fn track(key: &str, v: f64) {
+    if !v.is_finite() {
+        return;
+    }
+    let mut w = WORST.lock().unwrap();
+    let e = w.entry(key.to_string()).or_insert((0.0, String::new()));
+    if v > e.0 {
+        *e = (v, CASE_LABEL.with(|l| l.borrow().clone()));
+    }
+}
+
+pub fn worst_json() -> Value {
+    let w = WORST.lock().unwrap();
+    json!(w.iter().map(|(k, v)| (k.clone(), json!({"value": v.0, "case": v.1}))).collect::<serde_json::Map<_, _>>())
+}
+
+// ---------------------------------------------------------------------------------------
+// record pools
+// ---------------------------------------------------------------------------------------
+fn elements(formula: &str) -> Vec<String> {
+    let mut out = vec![];
+    let cs: Vec<char> = formula.chars().collect();
+    let mut i = 0;
+    while i < cs.len() {
+        if cs[i].is_ascii_uppercase() {
+            let mut e = cs[i].to_string();
+            if i + 1 < cs.len() && cs[i + 1].is_ascii_lowercase() {
+                e.push(cs[i + 1]);
+                i += 1;
+            }
+            out.push(e);
+        }
+        i += 1;
+    }
+    out
+}
+
+/// identifier formula (or, without a formula, the SMILES) contains only C and H
+pub fn is_hydrocarbon(rec: &Value) -> bool {
+    let id = &rec["identifier"];
+    if let Some(f) = id["formula"].as_str() {
+        let e = elements(f);
+        return e.iter().any(|x| x == "C") && e.iter().all(|x| x == "C" || x == "H");
+    }
+    if let Some(s) = id["smiles"].as_str() {
+        // element symbols of SMILES: upper-case letter (+ lower-case continuation such as Cl, Br)
+        // or aromatic lower-case c; anything else than C/c/H is a hetero atom
+        let cs: Vec<char> = s.chars().collect();
+        if !cs.iter().any(|c| *c == 'C' || *c == 'c') {
+            return false;
+        }
+        let mut i = 0;
+        while i < cs.len() {
+            let ch = cs[i];
+            if ch.is_ascii_uppercase() {
+                if ch != 'C' && ch != 'H' {
+                    return false;
+                }
+                if ch == 'C' && i + 1 < cs.len() && (cs[i + 1] == 'l' || cs[i + 1] == 'a' || cs[i + 1] == 'u' || cs[i + 1] == 'o' || cs[i + 1] == 'd' || cs[i + 1] == 's' || cs[i + 1] == 'r') {
+                    return false;
+                }
+            } else if ch.is_ascii_lowercase() && ch != 'c' {
+                return false;
+            }
+            i += 1;
+        }
+        return true;
+    }
+    false
+}
+
+pub fn rec_name(rec: &Value) -> String {
+    rec["identifier"]["name"].as_str().unwrap_or("?").to_string()
+}
+
+pub struct Pool {
+    pub family: Family,
+    pub recs: Vec<Value>,
+    pub src: Vec<String>,
+    /// pure critical temperatures with default options (generator-side partner selection only)
+    pub tc: Vec<f64>,
+    pub seg: Option<(String, Option<String>)>,
+    pub names: Vec<String>,
+    /// indices of records that have at least one partner with T_c ratio < 1.8
+    pub firsts: Vec<usize>,
+}
+
+pub const MAX_RATIO: f64 = 1.8;
+
+impl Pool {
+    pub fn within(&self, a: usize, b: usize, max_ratio: f64) -> bool {
+        let r = self.tc[a] / self.tc[b];
+        a != b && self.names[a] != self.names[b] && r < max_ratio * 0.999 && 1.0 / r < max_ratio * 0.999
+    }
+}
+
+fn single_spec(family: Family, rec: &Value, seg: &Option<(String, Option<String>)>, src: &str) -> ModelSpec {
+    ModelSpec {
+        family,
+        pure: vec![rec.clone()],
+        binary: vec![],
+        seg: seg.clone(),
+        opts: Opts::default(),
+        source: src.to_string(),
+    }
+}
+
+fn make_pool(family: Family, items: Vec<(String, Value)>, seg: Option<(String, Option<String>)>) -> Pool {
+    let tc: Vec<f64> = items
+        .par_iter()
+        .map(|(src, r)| {
+            let spec = single_spec(family, r, &seg, src);
+            match std::panic::catch_unwind(|| spec.build().map(|m| pure_tc(&spec, &m, 0))) {
+                Ok(Ok(t)) => t,
+                _ => f64::NAN,
+            }
+        })
+        .collect();
+    let mut p = Pool {
+        family,
+        recs: vec![],
+        src: vec![],
+        tc: vec![],
+        seg,
+        names: vec![],
+        firsts: vec![],
+    };
+    for ((src, r), t) in items.into_iter().zip(tc) {
+        if t.is_finite() && t > 20.0 {
+            p.names.push(rec_name(&r));
+            p.recs.push(r);
+            p.src.push(src);
+            p.tc.push(t);
+        }
+    }
+    let n = p.recs.len();
+    p.firsts = (0..n).filter(|&a| (0..n).any(|b| p.within(a, b, MAX_RATIO))).collect();
+    p
+}
+
+/// hydrocarbons of gross2001 (the success domain), file order
+pub static G2001_HC: LazyLock<Pool> = LazyLock::new(|| {
+    let items = POOLS.pcsaft[0]
+        .1
+        .iter()
+        .filter(|r| is_hydrocarbon(r))
+        .map(|r| ("gross2001.json".to_string(), r.clone()))
+        .collect();
+    make_pool(Family::PcSaft, items, None)
+});
+
+/// all shipped PC-SAFT hydrocarbon records (gross2001 first)
+pub static PC_HC: LazyLock<Pool> = LazyLock::new(|| {
+    let mut items = vec![];
+    for (f, recs) in POOLS.pcsaft.iter() {
+        for r in recs.iter().filter(|r| is_hydrocarbon(r)) {
+            items.push((f.to_string(), r.clone()));
+        }
+    }
+    make_pool(Family::PcSaft, items, None)
+});
+
+/// other shipped PC-SAFT records (polar / associating / non-hydrocarbon) of the small files
+pub static PC_OTHER: LazyLock<Pool> = LazyLock::new(|| {
+    let mut items = vec![];
+    for (f, recs) in POOLS.pcsaft.iter() {
+        if *f == "esper2023.json" || *f == "loetgeringlin2018.json" {
+            continue;
+        }
+        for r in recs.iter().filter(|r| !is_hydrocarbon(r)) {
+            items.push((f.to_string(), r.clone()));
+        }
+    }
+    make_pool(Family::PcSaft, items, None)
+});
+
+pub static VRMIE: LazyLock<Pool> = LazyLock::new(|| {
+    let items = POOLS.vrmie.iter().map(|r| ("lafitte2013.json".to_string(), r.clone())).collect();
+    make_pool(Family::SaftVRMie, items, None)
+});
+
+pub static GC: LazyLock<Pool> = LazyLock::new(|| {
+    let items = POOLS
+        .gc_substances
+        .iter()
+        .map(|r| ("gc_substances.json".to_string(), r.clone()))
+        .collect();
+    make_pool(Family::GcPcSaft, items, Some(("sauer2014_hetero.json".to_string(), None)))
+});
+
+#[derive(Serialize, Deserialize, Clone, Copy, Debug, PartialEq, Eq)]
+pub enum MixKind {
+    PcSaftHc,
+    PcSaftHc2001,
+    PcSaftOther,
+    Gc,
+    VrMie,
+}
+
+pub fn pool_of(kind: MixKind) -> &'static Pool {
+    match kind {
+        MixKind::PcSaftHc => &PC_HC,
+        MixKind::PcSaftHc2001 => &G2001_HC,
+        MixKind::PcSaftOther => &PC_OTHER,
+        MixKind::Gc => &GC,
+        MixKind::VrMie => &VRMIE,
+    }
+}
+
+/// Mixture of `n` records of one pool whose (default-option) critical temperatures are within
+/// `max_ratio` of each other — by construction, no discards. k_ij in +-0.08 with probability 0.6
+/// (shipped binary record where one exists).
+pub fn gen_mix(g: &mut Gen, kind: MixKind, n: usize, max_ratio: f64) -> ModelSpec {
+    let pool = pool_of(kind);
+    // first record: among those that have at least one admissible partner
+    let mut idx: Vec<usize> = vec![pool.firsts[g.index(pool.firsts.len())]];
+    while idx.len() < n {
+        let cand: Vec<usize> = (0..pool.recs.len())
+            .filter(|&k| idx.iter().all(|&i| pool.within(k, i, max_ratio.min(MAX_RATIO))))
+            .collect();
+        if cand.is_empty() {
+            break;
+        }
+        idx.push(cand[g.index(cand.len())]);
+    }
+    let pure: Vec<Value> = idx.iter().map(|&i| pool.recs[i].clone()).collect();
+    let mut binary = vec![];
+    let mut seg = pool.seg.clone();
+    match pool.family {
+        Family::GcPcSaft => {
+            let (sf, bf) = g.pick(&GC_HETERO_TABLES);
+            seg = Some((sf.to_string(), bf.map(|s| s.to_string())));
+        }
+        _ => {
+            for i in 0..pure.len() {
+                for j in i + 1..pure.len() {
+                    if pool.family == Family::PcSaft {
+                        if let Some(b) = shipped_binary(&POOLS.pcsaft_binary, &pure[i], &pure[j]) {
+                            binary.push((i, j, b));
+                            continue;
+                        }
+                    }
+                    if g.bool(0.6) {
+                        binary.push((i, j, json!({"k_ij": g.range(-0.08, 0.08)})));
+                    }
+                }
+            }
+        }
+    }
+    ModelSpec {
+        family: pool.family,
+        pure,
+        binary,
+        seg,
+        opts: Opts::default(),
+        source: format!("{kind:?}"),
+    }
+}
+
+pub fn gen_kind(g: &mut Gen) -> MixKind {
+    // gene 0 => PC-SAFT hydrocarbons
+    g.pick(&[
+        MixKind::PcSaftHc,
+        MixKind::PcSaftHc,
+        MixKind::PcSaftHc2001,
+        MixKind::Gc,
+        MixKind::VrMie,
+        MixKind::PcSaftOther,
+    ])
+}
+
+// ---------------------------------------------------------------------------------------
+// serialisable solver options
+// ---------------------------------------------------------------------------------------
+#[derive(Serialize, Deserialize, Clone, Copy, Debug, PartialEq, Default)]
+pub struct SolverOpt {
+    pub max_iter: Option<usize>,
+    pub tol: Option<f64>,
+}
+
+impl SolverOpt {
+    pub fn to(&self) -> SolverOptions {
+        let mut o = SolverOptions::default();
+        o.max_iter = self.max_iter;
+        o.tol = self.tol;
+        o
+    }
+    pub fn is_default(&self) -> bool {
+        self.max_iter.is_none() && self.tol.is_none()
+    }
+}
+
+pub fn gen_opt(g: &mut Gen, p: f64, it: (i64, i64), tol: (f64, f64)) -> SolverOpt {
+    if !g.bool(p) {
+        return SolverOpt::default();
+    }
+    SolverOpt {
+        max_iter: if g.bool(0.7) { Some(g.int(it.0, it.1) as usize) } else { None },
+        tol: if g.bool(0.7) { Some(g.log_range(tol.0, tol.1)) } else { None },
+    }
+}
+
+// ---------------------------------------------------------------------------------------
+// mixture point: model + T/T_c,low + composition
+// ---------------------------------------------------------------------------------------
+#[derive(Serialize, Deserialize, Clone, Debug)]
+pub struct MixPoint {
+    pub spec: ModelSpec,
+    /// T / (lowest pure critical temperature)
+    pub t_rel: f64,
+    /// specified composition (feed / liquid for bubble / vapor for dew)
+    pub x: Vec<f64>,
+}
+
+pub struct Built {
+    pub eos: Arc<Model>,
+    pub tc: Vec<f64>,
+    pub t: Temperature,
+    pub x: Array1<f64>,
+}
+
+pub fn err_name(e: &EosError) -> String {
+    match e {
+        EosError::Error(_) => "Error".into(),
+        EosError::NotConverged(s) => format!("NotConverged({s})"),
+        EosError::IterationFailed(s) => format!("IterationFailed({s})"),
+        EosError::TrivialSolution => "TrivialSolution".into(),
+        EosError::IncompatibleComponents(..) => "IncompatibleComponents".into(),
+        EosError::InvalidState(a, b, _) => format!("InvalidState({a},{b})"),
+        EosError::UndeterminedState(_) => "UndeterminedState".into(),
+        EosError::SuperCritical => "SuperCritical".into(),
+        EosError::NoPhaseSplit => "NoPhaseSplit".into(),
+        EosError::WrongUnits(..) => "WrongUnits".into(),
+        EosError::ParameterError(_) => "ParameterError".into(),
+        EosError::LinAlgError(_) => "LinAlgError".into(),
+        _ => "other".into(),
+    }
+}
+
+/// Build the model and the temperature of a mixture point; `max_ratio`: admissible T_c ratio.
+pub fn build_point(mp: &MixPoint, obs: &mut Obs, max_ratio: f64) -> Option<Built> {
+    let spec = &mp.spec;
+    set_label(format!(
+        "{} {:?} k_ij {:?} T/Tc_low {} x {:?}",
+        spec.source,
+        spec.pure.iter().map(rec_name).collect::<Vec<_>>(),
+        spec.binary.iter().map(|b| b.2["k_ij"].as_f64().unwrap_or(0.0)).collect::<Vec<_>>(),
+        mp.t_rel,
+        mp.x
+    ));
+    obs.class(format!("source:{}", spec.source));
+    obs.class(format!("n={}", spec.n()));
+    let eos = match spec.build() {
+        Ok(m) => m,
+        Err(e) => {
+            obs.discard(format!("build:{}", e.chars().take(40).collect::<String>()));
+            return None;
+        }
+    };
+    let tc: Vec<f64> = (0..spec.n()).map(|i| pure_tc(spec, &eos, i)).collect();
+    let lo = tc.iter().cloned().fold(f64::INFINITY, f64::min);
+    let hi = tc.iter().cloned().fold(0.0, f64::max);
+    if !(hi / lo < max_ratio) {
+        obs.discard("tc-ratio out of range");
+        return None;
+    }
+    obs.class(if hi / lo < 1.2 {
+        "tc-ratio<1.2"
+    } else if hi / lo < 1.5 {
+        "tc-ratio 1.2-1.5"
+    } else {
+        "tc-ratio 1.5-1.8"
+    });
+    if spec.has_association() {
+        obs.class("assoc");
+    }
+    if spec.has_polar() {
+        obs.class("polar");
+    }
+    if !spec.binary.is_empty() {
+        obs.class("k_ij");
+    }
+    Some(Built {
+        eos,
+        tc,
+        t: mp.t_rel * lo * KELVIN,
+        x: Array1::from_vec(mp.x.clone()),
+    })
+}
+
+// ---------------------------------------------------------------------------------------
+// oracle
+// ---------------------------------------------------------------------------------------
+/// tolerances of one solver result (reduced units)
+#[derive(Clone, Copy, Debug)]
+pub struct Tols {
+    /// |ln f_i^a - ln f_i^b|
+    pub fug: f64,
+    /// pressure: |dp| <= p_rel * max|p| + p_abs
+    pub p_rel: f64,
+    pub p_abs: f64,
+}
+
+/// isofugacity 1e-6 = 100 x the flash tolerance (1e-8 on the norm of ln K - ln(y/x)); the Newton
+/// finish of bubble/dew/heteroazeotrope is far tighter. Pressure: 1e-7 relative plus 100 x the
+/// absolute tolerance of the solver that fixed the pressure (reduced units).
+pub const TOL_FUG: f64 = 1e-6;
+pub const TOL_P_REL: f64 = 1e-7;
+/// density iteration: abstol 1e-12
+pub const ATOL_P_FLASH: f64 = 1e-10;
+/// bubble / dew Newton: TOL_OUTER 1e-10 on the residual norm (contains p_1 - p_2) tested *before*
+/// the last step; with the ill-conditioned Jacobians of near-azeotropic / near-critical mixtures the
+/// mismatch after the step was measured up to 1.5e-9 -> 1000 x TOL_OUTER
+pub const ATOL_P_BUBBLE: f64 = 1e-7;
+/// heteroazeotrope Newton: TOL_HETERO 1e-8
+pub const ATOL_P_HETERO: f64 = 1e-6;
+pub const TOL_X: f64 = 1e-12;
+pub const TOL_BALANCE: f64 = 1e-12;
+
+pub fn tols_flash(o: &SolverOpt) -> Tols {
+    Tols {
+        fug: TOL_FUG.max(100.0 * o.tol.unwrap_or(1e-8)),
+        p_rel: TOL_P_REL,
+        p_abs: ATOL_P_FLASH,
+    }
+}
+pub fn tols_bubble(outer: &SolverOpt) -> Tols {
+    let t = outer.tol.unwrap_or(1e-10);
+    Tols {
+        fug: TOL_FUG.max(100.0 * t),
+        p_rel: TOL_P_REL,
+        p_abs: ATOL_P_BUBBLE.max(1000.0 * t),
+    }
+}
+pub fn tols_hetero(o: &SolverOpt) -> Tols {
+    let t = o.tol.unwrap_or(1e-8);
+    Tols {
+        fug: TOL_FUG.max(100.0 * t),
+        p_rel: TOL_P_REL,
+        p_abs: ATOL_P_HETERO.max(100.0 * t),
+    }
+}
+
+/// fresh state at the returned (T, V, N): nothing cached by the solver is reused
+pub fn fresh(s: &St) -> Option<St> {
+    State::new_nvt(&s.eos, s.temperature, s.volume, &s.moles).ok()
+}
+
+/// ln f_i = ln(x_i phi_i p) in reduced units from the public `ln_phi`, `molefracs`, `pressure`
+/// of a state (for p <= 0, where ln_phi is undefined, mu_res/RT + ln(rho_i T), the same number).
+/// Entries of absent components are NaN.
+pub fn ln_fugacity(s: &St) -> Array1<f64> {
+    let p = s.pressure(Contributions::Total).to_reduced();
+    let x = &s.molefracs;
+    if p > 0.0 {
+        let lp = s.ln_phi();
+        Array1::from_shape_fn(x.len(), |i| if x[i] > 0.0 { lp[i] + x[i].ln() + p.ln() } else { f64::NAN })
+    } else {
+        let t = s.temperature.to_reduced();
+        let mu = s.residual_chemical_potential().to_reduced();
+        let rho = s.partial_density.to_reduced();
+        Array1::from_shape_fn(x.len(), |i| if x[i] > 0.0 { mu[i] / t + (rho[i] * t).ln() } else { f64::NAN })
+    }
+}
+
+pub fn pressure_red(s: &St) -> f64 {
+    s.pressure(Contributions::Total).to_reduced()
+}
+
+/// `check_phases_inner` with the signature of KF_BEYOND_MAX: a bubble/dew-type result one of whose
+/// phases is denser than `Residual::max_density` of its own composition (the bound of the density
+/// iteration; the Newton finish is not bounded by it) *and* that violates a condition.
+pub fn check_phases(obs: &mut Obs, tag: &str, kind: Kind, phases: &[&St], tol: &Tols) -> bool {
+    let beyond = kind == Kind::BubbleDew && phases.iter().any(|s| rel_density(s) > 1.0);
+    if !beyond {
+        return check_phases_inner(obs, tag, kind, phases, tol);
+    }
+    let mut tmp = Obs::default();
+    let ok = check_phases_inner(&mut tmp, tag, kind, phases, tol);
+    obs.comparisons += tmp.comparisons;
+    for c in tmp.classes {
+        obs.class(c);
+    }
+    for (id, m) in tmp.known {
+        obs.known_or_fail(&id, m);
+    }
+    if tmp.fails.is_empty() {
+        obs.class("phase beyond max_density, conditions hold");
+        ok
+    } else {
+        obs.class("known signature: phase beyond max_density violating the conditions");
+        obs.known_or_fail(
+            KF_BEYOND_MAX,
+            format!("{tag}: rho/rho_max = {:?}: {}", phases.iter().map(|s| rel_density(s)).collect::<Vec<_>>(), tmp.fails.join(" | ")),
+        );
+        false
+    }
+}
+
+/// Conditions every returned set of coexisting phases must satisfy. `tag` labels messages and
+/// the worst-value statistics.
+pub fn debug_on() -> bool {
+    std::env::var("C05_DEBUG").is_ok()
+}
+
+#[derive(Clone, Copy, PartialEq, Eq, Debug)]
+pub enum Kind {
+    Flash,
+    BubbleDew,
+    Hetero,
+}
+
+// known-finding ids (signature predicates are the code next to each use)
+pub const KF_GAS_PAIR: &str = "C05/bubble-dew-zero-pressure-gas-pair";
+pub const KF_HETERO_COPIES: &str = "C05/heteroazeotrope-identical-liquids";
+pub const KF_NEAR_TRIVIAL: &str = "C05/near-trivial-two-phase-result";
+pub const KF_FLASH_RR: &str = "C05/flash-rachford-rice-lattice";
+pub const KF_FLASH_INIT: &str = "C05/flash-converged-initial-state-not-rescaled";
+pub const KF_BEYOND_MAX: &str = "C05/bubble-dew-beyond-max-density";
+
+pub fn rel_density(s: &St) -> f64 {
+    match s.eos.max_density(Some(&s.moles)) {
+        Ok(m) => (s.density / m).into_value(),
+        Err(_) => f64::NAN,
+    }
+}
+
+/// signature of KF_GAS_PAIR: every phase of the result is a dilute gas (rho < 1e-3 rho_max(x));
+/// a genuine liquid has rho > 0.2 rho_max
+pub fn all_dilute(phases: &[&St]) -> bool {
+    phases.iter().all(|s| rel_density(s) < 1e-3)
+}
+
+/// Conditions every returned set of coexisting phases must satisfy. `tag` labels messages and
+/// the worst-value statistics. Returns false if the result is unusable for follow-up clauses
+/// (a failure or a known finding was recorded).
+fn check_phases_inner(obs: &mut Obs, tag: &str, kind: Kind, phases: &[&St], tol: &Tols) -> bool {
+    let n0 = obs.fails.len();
+    let k0 = obs.known.len();
+    if debug_on() {
+        for (k, s) in phases.iter().enumerate() {
+            println!(
+                "[{tag}] phase {k}: T={:.6} K p={:e} Pa (reduced {:e}) rho={:e} rho/rho_max={:e} x={:?} N={:e}",
+                s.temperature.convert_to(KELVIN),
+                s.pressure(Contributions::Total).convert_to(PASCAL),
+                pressure_red(s),
+                s.density.to_reduced(),
+                rel_density(s),
+                s.molefracs.to_vec(),
+                s.total_moles.convert_to(MOL),
+            );
+        }
+    }
+    // one temperature (bitwise)
+    for (k, s) in phases.iter().enumerate().skip(1) {
+        obs.ensure(s.temperature == phases[0].temperature, || {
+            format!("{tag}: phase {k} temperature {} differs from phase 0 {}", s.temperature, phases[0].temperature)
+        });
+    }
+    if kind == Kind::BubbleDew && all_dilute(phases) {
+        obs.class("known signature: zero-pressure gas pair");
+        obs.known_or_fail(
+            KF_GAS_PAIR,
+            format!(
+                "{tag}: returned Ok with only dilute-gas phases: p = {:e} / {:e} (reduced), rho/rho_max = {:e} / {:e}",
+                pressure_red(phases[0]),
+                pressure_red(phases[1]),
+                rel_density(phases[0]),
+                rel_density(phases[1])
+            ),
+        );
+        return false;
+    }
+    if kind == Kind::BubbleDew && phases.len() == 2 {
+        let (a, b) = (phases[0], phases[1]);
+        let dx = (&a.molefracs - &b.molefracs).mapv(f64::abs).fold(0.0, |m: f64, v| m.max(*v));
+        let drho = (a.density.to_reduced() / b.density.to_reduced() - 1.0).abs();
+        if !PhaseEquilibrium::is_trivial_solution(a, b) && !(drho > 1e-2 || dx > 1e-2) {
+            // signature: bubble/dew-type result that passes the library's own 1e-5 trivial-solution
+            // test but whose phases agree to better than 1e-2 in density and composition (a genuine
+            // equilibrium is that close only within ~1e-4 T_c of a critical point; the drift towards
+            // the trivial solution is ill-conditioned and not reproducible to the last digit: the
+            // same case was seen with max|dx| = 1.1e-3 and 4.5e-5); all clauses on it are masked
+            obs.count();
+            obs.class("known signature: near-trivial two-phase result");
+            obs.known_or_fail(
+                KF_NEAR_TRIVIAL,
+                format!(
+                    "{tag}: phases 0,1 are copies (|drho/rho| {drho:e}, max|dx| {dx:e}, is_trivial_solution false, T {} p {:e} rho/rho_max {:e})",
+                    a.temperature,
+                    pressure_red(a),
+                    rel_density(a)
+                ),
+            );
+            return false;
+        }
+    }
+    let fr: Vec<St> = match phases.iter().map(|s| fresh(s)).collect::<Option<Vec<_>>>() {
+        Some(f) => f,
+        None => {
+            obs.fail(format!("{tag}: a returned phase cannot be rebuilt at its (T,V,N)"));
+            return false;
+        }
+    };
+    let p: Vec<f64> = fr.iter().map(pressure_red).collect();
+    let lf: Vec<Array1<f64>> = fr.iter().map(ln_fugacity).collect();
+    if p.iter().any(|&v| v <= 0.0) {
+        obs.class("p<=0 phase");
+    }
+    let pmax = p.iter().fold(0.0f64, |a, v| a.max(v.abs()));
+    for a in 0..phases.len() {
+        for b in a + 1..phases.len() {
+            // one pressure
+            let dp = (p[a] - p[b]).abs();
+            track(&format!("{tag}: |dp| / (1e-7 p + atol)"), dp / (tol.p_rel * pmax + tol.p_abs));
+            obs.ensure(dp <= tol.p_rel * pmax + tol.p_abs, || {
+                format!("{tag}: pressures of phases {a},{b} differ: {:e} vs {:e} (diff {dp:e} > {:e})", p[a], p[b], tol.p_rel * pmax + tol.p_abs)
+            });
+            // isofugacity
+            for i in 0..lf[a].len() {
+                let (u, v) = (lf[a][i], lf[b][i]);
+                let (xa, xb) = (phases[a].molefracs[i], phases[b].molefracs[i]);
+                if xa > 0.0 && xb > 0.0 {
+                    track(&format!("{tag}: |dlnf| / tol"), (u - v).abs() / tol.fug);
+                    if tol.fug == TOL_FUG {
+                        track(&format!("{tag}: |dlnf| (tolerance 1e-6)"), (u - v).abs());
+                    }
+                    obs.close(&format!("{tag}: ln f[{i}] phases {a},{b} (x {xa:e}, {xb:e})"), u, v, 0.0, tol.fug);
+                } else if xa != xb {
+                    obs.fail(format!("{tag}: component {i} absent in one phase only ({xa:e} vs {xb:e})"));
+                } else {
+                    obs.class("absent component");
+                }
+            }
+            // not copies
+            let rho_a = phases[a].density.to_reduced();
+            let rho_b = phases[b].density.to_reduced();
+            let dx = (&phases[a].molefracs - &phases[b].molefracs).mapv(f64::abs).fold(0.0, |m: f64, v| m.max(*v));
+            let drho = (rho_a / rho_b - 1.0).abs();
+            let trivial = PhaseEquilibrium::is_trivial_solution(phases[a], phases[b]);
+            let copies = trivial || !(drho > 1e-4 || dx > 1e-4);
+            obs.count();
+            if copies {
+                let msg = format!(
+                    "{tag}: phases {a},{b} are copies (|drho/rho| {drho:e}, max|dx| {dx:e}, is_trivial_solution {trivial}, T {} p {:e} rho/rho_max {:e})",
+                    phases[a].temperature,
+                    p[a],
+                    rel_density(phases[a])
+                );
+                if kind == Kind::Hetero {
+                    // signature: two of the three phases of a heteroazeotrope result coincide
+                    obs.class("known signature: heteroazeotrope phases identical");
+                    obs.known_or_fail(KF_HETERO_COPIES, msg);
+                } else {
+                    obs.fail(msg);
+                }
+            }
+        }
+    }
+    obs.fails.len() == n0 && obs.known.len() == k0
+}
+
+/// both phases of a two-phase result bitwise identical: the critical end point appended by the
+/// diagram constructors by design (`from_states(sc.clone(), sc)`)
+pub fn is_identical(pe: &Pe2) -> bool {
+    pe.vapor().density == pe.liquid().density
+        && pe.vapor().temperature == pe.liquid().temperature
+        && pe.vapor().molefracs == pe.liquid().molefracs
+}
+
+pub fn check_composition(obs: &mut Obs, tag: &str, got: &Array1<f64>, spec: &Array1<f64>) {
+    for i in 0..spec.len() {
+        track(&format!("{tag}: |dx|"), (got[i] - spec[i]).abs());
+        obs.close(&format!("{tag}: composition[{i}] equals the specification"), got[i], spec[i], 0.0, TOL_X);
+    }
+}
+
+pub fn check_p_spec(obs: &mut Obs, tag: &str, phases: &[&St], p_spec: f64, tol: &Tols) {
+    for (k, s) in phases.iter().enumerate() {
+        if let Some(f) = fresh(s) {
+            let p = pressure_red(&f);
+            track(&format!("{tag}: |p - p_spec| / (1e-7 p + atol)"), (p - p_spec).abs() / (tol.p_rel * p_spec.abs() + tol.p_abs));
+            obs.close(&format!("{tag}: pressure of phase {k} equals the specification"), p, p_spec, tol.p_rel, tol.p_abs);
+        }
+    }
+}
+
+pub fn check_t_spec(obs: &mut Obs, tag: &str, phases: &[&St], t: Temperature) {
+    for (k, s) in phases.iter().enumerate() {
+        obs.ensure(s.temperature == t, || format!("{tag}: temperature of phase {k} {} is not the specified {}", s.temperature, t));
+    }
+}
+
+/// bubble (dew) point at given temperature: all clauses
+pub fn check_bubble_dew_t(obs: &mut Obs, tag: &str, pe: &Pe2, bubble: bool, t: Temperature, x: &Array1<f64>, tol: &Tols) -> bool {
+    let ok = check_phases(obs, tag, Kind::BubbleDew, &[pe.vapor(), pe.liquid()], tol);
+    check_t_spec(obs, tag, &[pe.vapor(), pe.liquid()], t);
+    let got = if bubble { &pe.liquid().molefracs } else { &pe.vapor().molefracs };
+    check_composition(obs, tag, got, x);
+    ok
+}
+
+pub fn check_bubble_dew_p(obs: &mut Obs, tag: &str, pe: &Pe2, bubble: bool, p: f64, x: &Array1<f64>, tol: &Tols) -> bool {
+    let ok = check_phases(obs, tag, Kind::BubbleDew, &[pe.vapor(), pe.liquid()], tol);
+    if ok {
+        check_p_spec(obs, tag, &[pe.vapor(), pe.liquid()], p, tol);
+    }
+    let got = if bubble { &pe.liquid().molefracs } else { &pe.vapor().molefracs };
+    check_composition(obs, tag, got, x);
+    ok
+}
+
+/// a vapor-liquid pair
+pub fn vle_like(pe: &Pe2) -> bool {
+    pe.vapor().density.to_reduced() < 0.5 * pe.liquid().density.to_reduced()
+}
+
+/// Premise of p_bubble >= p_dew: both results are vapor-liquid pairs of *stable* phases. Models
+/// with a liquid-liquid split (seen: SAFT-VR Mie R116/CO2 with k_ij = +0.05 at 190 K) have
+/// metastable bubble / dew branches on which the inequality does not hold; `is_stable` (C07)
+/// reporting a phase unstable with a sound trial state identifies them.
+pub fn stable_vle(pe: &Pe2) -> bool {
+    vle_like(pe)
+        && pe.vapor().is_stable(SolverOptions::default()).unwrap_or(false)
+        && pe.liquid().is_stable(SolverOptions::default()).unwrap_or(false)
+}
+
+/// flash: all clauses; returns (beta, max |K-1| ... min) for the non-trivial rule
+pub fn check_flash(obs: &mut Obs, tag: &str, pe: &Pe2, t: Temperature, p: f64, feed: &Array1<f64>, tol: &Tols) -> (f64, f64) {
+    check_phases(obs, tag, Kind::Flash, &[pe.vapor(), pe.liquid()], tol);
+    check_t_spec(obs, tag, &[pe.vapor(), pe.liquid()], t);
+    check_p_spec(obs, tag, &[pe.vapor(), pe.liquid()], p, tol);
+    let v = pe.vapor().moles.to_reduced();
+    let l = pe.liquid().moles.to_reduced();
+    for i in 0..feed.len() {
+        track(&format!("{tag}: balance rel"), ((v[i] + l[i]) / feed[i] - 1.0).abs());
+        obs.close(&format!("{tag}: v+l = feed [{i}]"), v[i] + l[i], feed[i], TOL_BALANCE, 0.0);
+    }
+    let beta = v.sum() / (v.sum() + l.sum());
+    let k = &pe.vapor().molefracs / &pe.liquid().molefracs;
+    let kdev = k.iter().fold(f64::INFINITY, |m: f64, ki| m.min((ki - 1.0).abs()));
+    (beta, kdev)
+}
+
+fn default2() -> (SolverOptions, SolverOptions) {
+    (SolverOptions::default(), SolverOptions::default())
+}
+
+pub fn envelope(b: &Built) -> (Result<Pe2, EosError>, Result<Pe2, EosError>) {
+    (
+        PhaseEquilibrium::bubble_point(&b.eos, b.t, &b.x, None, None, default2()),
+        PhaseEquilibrium::dew_point(&b.eos, b.t, &b.x, None, None, default2()),
+    )
+}
+
+/// pressure of a two-phase result (vapor phase, reduced)
+pub fn p_of(pe: &Pe2) -> f64 {
+    pressure_red(pe.vapor())
+}
+
+// ---------------------------------------------------------------------------------------
+// part `lattice`: success clause
+// ---------------------------------------------------------------------------------------
+#[derive(Serialize, Deserialize, Clone, Debug)]
+pub struct LatticeCase {
+    pub mix: MixPoint,
+}
+
+pub const THETAS: [f64; 3] = [0.1, 0.5, 0.9];
+pub const LATTICE_T: [f64; 6] = [0.65, 0.7, 0.75, 0.8, 0.85, 0.9];
+pub const LATTICE_X: [f64; 7] = [0.05, 0.2, 0.35, 0.5, 0.65, 0.8, 0.95];
+
+pub fn lattice_items(stride: usize) -> Vec<LatticeCase> {
+    let pool = &*G2001_HC;
+    let mut out = vec![];
+    let mut k = 0usize;
+    for i in 0..pool.recs.len() {
+        for j in i + 1..pool.recs.len() {
+            let r = pool.tc[i] / pool.tc[j];
+            if r.max(1.0 / r) >= 1.5 {
+                continue;
+            }
+            k += 1;
+            if k % stride != 0 {
+                continue;
+            }
+            for t_rel in LATTICE_T {
+                for x in LATTICE_X {
+                    out.push(LatticeCase {
+                        mix: MixPoint {
+                            spec: ModelSpec {
+                                family: Family::PcSaft,
+                                pure: vec![pool.recs[i].clone(), pool.recs[j].clone()],
+                                binary: vec![],
+                                seg: None,
+                                opts: Opts::default(),
+                                source: "PcSaftHc2001".into(),
+                            },
+                            t_rel,
+                            x: vec![x, 1.0 - x],
+                        },
+                    });
+                }
+            }
+        }
+    }
+    out
+}
+
+/// Signature of KF_FLASH_RR (lattice points inside the stated success domain whose flash fails on
+/// the pinned tree): feed with 5 % of a long n-alkane (>= C15, listed first in gross2001) in a much
+/// more volatile partner (p_bub/p_dew > 10), flash at the middle of the envelope (theta = 0.5),
+/// error variant IterationFailed(rachford_rice). Every hit is listed by name in the class histogram.
+fn known_lattice_flash(names: &[String], x: f64, theta: f64, ratio: f64, err: &str) -> bool {
+    const HEAVY: [&str; 6] = ["pentadecane", "hexadecane", "heptadecane", "octadecane", "nonadecane", "eicosane"];
+    HEAVY.contains(&names[0].as_str()) && (x - 0.05).abs() < 1e-9 && (theta - 0.5).abs() < 1e-9 && ratio > 10.0 && err == "IterationFailed(rachford_rice)"
+}
+
+pub fn check_lattice(case: &LatticeCase, obs: &mut Obs) {
+    let Some(b) = build_point(&case.mix, obs, 1.5) else { return };
+    let names: Vec<String> = case.mix.spec.pure.iter().map(rec_name).collect();
+    let here = format!("{}/{} T/Tc_low={} x={}", names[0], names[1], case.mix.t_rel, case.mix.x[0]);
+    let (bub, dew) = envelope(&b);
+    let tol_b = tols_bubble(&SolverOpt::default());
+    let mut usable = true;
+    match &bub {
+        Ok(pe) => usable &= check_bubble_dew_t(obs, "bubble(T) default", pe, true, b.t, &b.x, &tol_b),
+        Err(e) => obs.fail(format!("success clause: bubble point not found ({}) for {here}", err_name(e))),
+    }
+    match &dew {
+        Ok(pe) => usable &= check_bubble_dew_t(obs, "dew(T) default", pe, false, b.t, &b.x, &tol_b),
+        Err(e) => obs.fail(format!("success clause: dew point not found ({}) for {here}", err_name(e))),
+    }
+    let (Ok(bub), Ok(dew)) = (bub, dew) else { return };
+    if !usable {
+        return;
+    }
+    let (pb, pd) = (p_of(&bub), p_of(&dew));
+    if stable_vle(&bub) && stable_vle(&dew) {
+        obs.ensure(pb >= pd - 1e-7 * pb.abs(), || format!("p_bubble {pb:e} < p_dew {pd:e} for {here}"));
+        obs.class("p_bub >= p_dew asserted");
+    } else {
+        obs.class("not a stable vapor-liquid pair: p_bub >= p_dew not asserted");
+    }
+    if !(pb / pd > 1.05) {
+        obs.class("narrow envelope (p_bub/p_dew <= 1.05): flash excluded");
+        return;
+    }
+    obs.class("flash domain");
+    let tol_f = tols_flash(&SolverOpt::default());
+    let feed = b.x.clone();
+    let mut nontrivial = false;
+    for th in THETAS {
+        let p = pd + th * (pb - pd);
+        match PhaseEquilibrium::tp_flash(&b.eos, b.t, Pressure::from_reduced(p), &(feed.clone() * MOL), None, SolverOptions::default(), None) {
+            Ok(pe) => {
+                let fm = (feed.clone() * MOL).to_reduced();
+                let (beta, kdev) = check_flash(obs, "flash default", &pe, b.t, p, &fm, &tol_f);
+                if beta > 0.02 && beta < 0.98 && kdev > 0.05 {
+                    nontrivial = true;
+                }
+            }
+            Err(e) => {
+                let msg = format!("success clause: flash failed ({}) at theta={th} p_bub/p_dew={:.4} for {here}", err_name(&e), pb / pd);
+                obs.class(format!("lattice flash failure: {}/{} T/Tc_low={} x={} theta={th} {}", names[0], names[1], case.mix.t_rel, case.mix.x[0], err_name(&e)));
+                if known_lattice_flash(&names, case.mix.x[0], th, pb / pd, &err_name(&e)) {
+                    obs.class("known signature: lattice flash failure");
+                    obs.known_or_fail(KF_FLASH_RR, msg);
+                } else {
+                    obs.fail(msg);
+                }
+            }
+        }
+    }
+    if nontrivial {
+        obs.nontrivial();
+    }
+}
+
+// ---------------------------------------------------------------------------------------
+// part `points`: soundness of bubble / dew / flash with options and guesses
+// ---------------------------------------------------------------------------------------
+#[derive(Serialize, Deserialize, Clone, Debug)]
+pub struct PointsCase {
+    pub mix: MixPoint,
+    pub theta: f64,
+    pub inner: SolverOpt,
+    pub outer: SolverOpt,
+    pub flash: SolverOpt,
+    /// initial pressure = default-solve pressure x factor
+    pub p_factor: Option<f64>,
+    /// perturbation of the incipient-phase composition guess: x2_i ~ x2_i exp(+-shift)
+    pub x2_shift: Option<f64>,
+    /// p-specification: initial temperature = T x t_init_rel
+    pub t_init_rel: f64,
+    /// 0 none, 1 perturbed phase compositions at (T,p), 2 bubble-point phases as initial state,
+    /// 3 none, then the converged result as initial state of a second flash with another feed on the tie line
+    pub flash_init: u8,
+    pub via_state: bool,
+    /// total feed amount (mol)
+    pub n_feed: f64,
+}
+
+pub fn gen_mixpoint(g: &mut Gen, max_n: usize) -> MixPoint {
+    let kind = gen_kind(g);
+    let n = 2 + g.index(max_n - 1);
+    let spec = gen_mix(g, kind, n, 1.8);
+    let t_rel = g.range(0.6, 0.95);
+    let x = g.simplex(spec.n(), 0.02);
+    MixPoint { spec, t_rel, x }
+}
+
+pub fn decode_points(g: &mut Gen) -> PointsCase {
+    let mix = gen_mixpoint(g, 3);
+    PointsCase {
+        mix,
+        theta: g.range(0.02, 0.98),
+        inner: gen_opt(g, 0.4, (2, 20), (1e-11, 1e-7)),
+        outer: gen_opt(g, 0.4, (30, 800), (1e-12, 1e-8)),
+        flash: gen_opt(g, 0.4, (20, 800), (1e-11, 1e-6)),
+        p_factor: if g.bool(0.5) { Some(g.log_range(1.0 / 3.0, 3.0)) } else { None },
+        x2_shift: if g.bool(0.5) { Some(g.range(-1.0, 1.0)) } else { None },
+        t_init_rel: g.range(0.95, 1.05),
+        flash_init: g.index(4) as u8,
+        via_state: g.bool(0.3),
+        n_feed: g.log_range(1e-2, 1e2),
+    }
+}
+
+fn perturb_x(x: &Array1<f64>, shift: f64) -> Array1<f64> {
+    let y = Array1::from_shape_fn(x.len(), |i| x[i] * (if i % 2 == 0 { shift } else { -shift }).exp());
+    &y / y.sum()
+}
+
+fn class_result<T>(obs: &mut Obs, what: &str, r: &Result<T, EosError>) {
+    match r {
+        Ok(_) => obs.class(format!("{what}:Ok")),
+        Err(e) => obs.class(format!("{what}:Err {}", err_name(e))),
+    }
+}
+
+pub fn check_points(case: &PointsCase, obs: &mut Obs) {
+    let Some(b) = build_point(&case.mix, obs, 1.8) else { return };
+    let opts2 = (case.inner.to(), case.outer.to());
+    let variant_opts = !case.inner.is_default() || !case.outer.is_default();
+    let tol_b0 = tols_bubble(&SolverOpt::default());
+    let tol_b1 = tols_bubble(&case.outer);
+    // default solves
+    let (bub0, dew0) = envelope(&b);
+    class_result(obs, "bubble(T) default", &bub0);
+    class_result(obs, "dew(T) default", &dew0);
+    let mut compared = 0;
+    let mut usable = [false, false];
+    if let Ok(pe) = &bub0 {
+        usable[0] = check_bubble_dew_t(obs, "bubble(T) default", pe, true, b.t, &b.x, &tol_b0);
+        compared += 1;
+    }
+    if let Ok(pe) = &dew0 {
+        usable[1] = check_bubble_dew_t(obs, "dew(T) default", pe, false, b.t, &b.x, &tol_b0);
+        compared += 1;
+    }
+    let mut variant = false;
+    // variants with options and guesses
+    for (bubble, base, ok0) in [(true, &bub0, usable[0]), (false, &dew0, usable[1])] {
+        let name = if bubble { "bubble" } else { "dew" };
+        let base = if ok0 { base.as_ref().ok() } else { None };
+        let p_init = match (case.p_factor, base) {
+            (Some(f), Some(pe)) => Some(Pressure::from_reduced(p_of(pe) * f)),
+            _ => None,
+        };
+        let x2 = match (case.x2_shift, base) {
+            (Some(s), Some(pe)) => Some(perturb_x(if bubble { &pe.vapor().molefracs } else { &pe.liquid().molefracs }, s)),
+            _ => None,
+        };
+        if p_init.is_some() || x2.is_some() || variant_opts {
+            let r = if bubble {
+                PhaseEquilibrium::bubble_point(&b.eos, b.t, &b.x, p_init, x2.as_ref(), opts2)
+            } else {
+                PhaseEquilibrium::dew_point(&b.eos, b.t, &b.x, p_init, x2.as_ref(), opts2)
+            };
+            class_result(obs, &format!("{name}(T) variant"), &r);
+            if let Ok(pe) = &r {
+                check_bubble_dew_t(obs, &format!("{name}(T) variant"), pe, bubble, b.t, &b.x, &tol_b1);
+                compared += 1;
+                variant = true;
+            }
+        }
+        // pressure specification: p from the T-solve, initial temperature off by up to 5 %
+        if let Some(pe0) = base {
+            let p = p_of(pe0);
+            let t_init = b.t * case.t_init_rel;
+            let r = if bubble {
+                PhaseEquilibrium::bubble_point(&b.eos, Pressure::from_reduced(p), &b.x, Some(t_init), x2.as_ref(), opts2)
+            } else {
+                PhaseEquilibrium::dew_point(&b.eos, Pressure::from_reduced(p), &b.x, Some(t_init), x2.as_ref(), opts2)
+            };
+            class_result(obs, &format!("{name}(p)"), &r);
+            if let Ok(pe) = &r {
+                check_bubble_dew_p(obs, &format!("{name}(p)"), pe, bubble, p, &b.x, &tol_b1);
+                compared += 1;
+            }
+        }
+    }
+    // bubble pressure not below dew pressure; flash inside the envelope
+    let mut kdev_env = 0.0;
+    if let (Ok(bub), Ok(dew), true, true) = (&bub0, &dew0, usable[0], usable[1]) {
+        let (pb, pd) = (p_of(bub), p_of(dew));
+        if stable_vle(bub) && stable_vle(dew) {
+            obs.ensure(pb >= pd - 1e-7 * pb.abs(), || format!("p_bubble {pb:e} < p_dew {pd:e}"));
+            obs.class("p_bub >= p_dew asserted");
+            obs.class(if pb / pd > 1.05 { "envelope > 5 %" } else { "envelope <= 5 %" });
+        } else {
+            obs.class("not a stable vapor-liquid pair: p_bub >= p_dew not asserted");
+        }
+        let k = &bub.vapor().molefracs / &bub.liquid().molefracs;
+        kdev_env = k.iter().fold(f64::INFINITY, |m: f64, ki| m.min((ki - 1.0).abs()));
+        let p = pd + case.theta * (pb - pd);
+        let feed = b.x.clone() * case.n_feed;
+        let feed_q = feed.clone() * MOL;
+        let pq = Pressure::from_reduced(p);
+        let init: Option<Pe2> = match case.flash_init {
+            1 => {
+                let s = case.x2_shift.unwrap_or(0.3);
+                let yv = perturb_x(&bub.vapor().molefracs, s);
+                let xl = perturb_x(&dew.liquid().molefracs, -s);
+                PhaseEquilibrium::new_npt(&b.eos, b.t, pq, &(yv * MOL), &(xl * MOL)).ok()
+            }
+            2 => Some(bub.clone()),
+            _ => None,
+        };
+        if init.is_some() {
+            obs.class(format!("flash init {}", case.flash_init));
+        }
+        let r = if case.via_state {
+            State::new_npt(&b.eos, b.t, pq, &feed_q, DensityInitialization::None).and_then(|s| s.tp_flash(init.as_ref(), case.flash.to(), None))
+        } else {
+            PhaseEquilibrium::tp_flash(&b.eos, b.t, pq, &feed_q, init.as_ref(), case.flash.to(), None)
+        };
+        class_result(obs, "flash", &r);
+        let ftag = if case.flash.is_default() { "flash default" } else { "flash variant" };
+        if let Ok(pe) = &r {
+            let mut tmp = Obs::default();
+            let (beta, kdev) = check_flash(&mut tmp, ftag, pe, b.t, p, &feed_q.to_reduced(), &tols_flash(&case.flash));
+            // signature of KF_FLASH_INIT: the returned phases carry the amounts of the initial state
+            let unchanged = init
+                .as_ref()
+                .map(|i| pe.vapor().moles.to_reduced() == i.vapor().moles.to_reduced() && pe.liquid().moles.to_reduced() == i.liquid().moles.to_reduced())
+                .unwrap_or(false);
+            obs.comparisons += tmp.comparisons;
+            for c in tmp.classes {
+                obs.class(c);
+            }
+            for (id, m) in tmp.known {
+                obs.known_or_fail(&id, m);
+            }
+            for f in tmp.fails {
+                if unchanged && f.contains("v+l = feed") {
+                    obs.class("known signature: converged initial state returned unchanged");
+                    obs.known_or_fail(KF_FLASH_INIT, f);
+                } else {
+                    obs.fail(f);
+                }
+            }
+            compared += 1;
+            obs.class(if beta < 0.02 || beta > 0.98 { "beta at the edge" } else { "beta inside (0.02,0.98)" });
+            if beta > 0.02 && beta < 0.98 && kdev > 0.05 {
+                obs.nontrivial();
+            }
+            if init.is_some() || !case.flash.is_default() {
+                variant = true;
+            }
+            // the converged result as initial state of a flash of another feed on the same tie line
+            // (other amount, other vapor fraction) at the same T and p
+            if case.flash_init == 3 {
+                let feed2 = &pe.vapor().moles * 0.5 + &pe.liquid().moles * 2.0;
+                let r2 = PhaseEquilibrium::tp_flash(&b.eos, b.t, pq, &feed2, Some(pe), case.flash.to(), None);
+                class_result(obs, "flash re-fed", &r2);
+                if let Ok(pe2) = &r2 {
+                    let n0 = obs.fails.len();
+                    let mut tmp = Obs::default();
+                    check_flash(&mut tmp, "flash re-fed", pe2, b.t, p, &feed2.to_reduced(), &tols_flash(&case.flash));
+                    obs.comparisons += tmp.comparisons;
+                    let unchanged = pe2.vapor().moles.to_reduced() == pe.vapor().moles.to_reduced() && pe2.liquid().moles.to_reduced() == pe.liquid().moles.to_reduced();
+                    for f in tmp.fails {
+                        if unchanged && f.contains("v+l = feed") {
+                            // signature: the returned phases are the initial state, bit for bit
+                            obs.class("known signature: converged initial state returned unchanged");
+                            obs.known_or_fail(KF_FLASH_INIT, f);
+                        } else {
+                            obs.fail(f);
+                        }
+                    }
+                    let _ = n0;
+                    variant = true;
+                }
+            }
+        }
+    }
+    if compared >= 2 && kdev_env > 0.05 && variant {
+        obs.nontrivial();
+    }
+}
+
+// ---------------------------------------------------------------------------------------
+// part `diagram`
+// ---------------------------------------------------------------------------------------
+#[derive(Serialize, Deserialize, Clone, Debug)]
+pub struct DiagramCase {
+    pub mix: MixPoint,
+    /// 0 binary_vle(T), 1 binary_vle(p), 2 bubble_point_line, 3 dew_point_line
+    pub kind: u8,
+    pub npoints: usize,
+    pub inner: SolverOpt,
+    pub outer: SolverOpt,
+}
+
+pub fn decode_diagram(g: &mut Gen) -> DiagramCase {
+    let kind = g.index(4) as u8;
+    let mk = gen_kind(g);
+    let n = if kind < 2 { 2 } else { 2 + g.index(2) };
+    let spec = gen_mix(g, mk, n, 1.8);
+    let t_rel = g.range(0.6, 0.95);
+    let x = g.simplex(spec.n(), 0.02);
+    DiagramCase {
+        mix: MixPoint { spec, t_rel, x },
+        kind,
+        npoints: g.int(5, 60) as usize,
+        inner: gen_opt(g, 0.3, (2, 20), (1e-11, 1e-7)),
+        outer: gen_opt(g, 0.3, (30, 800), (1e-12, 1e-8)),
+    }
+}
+
+pub fn check_diagram(case: &DiagramCase, obs: &mut Obs) {
+    let Some(b) = build_point(&case.mix, obs, 1.8) else { return };
+    if case.kind < 2 && case.mix.spec.n() != 2 {
+        obs.discard("binary_vle needs two components");
+        return;
+    }
+    let opts2 = (case.inner.to(), case.outer.to());
+    let tol = tols_bubble(&case.outer);
+    let kind_name = ["binary_vle(T)", "binary_vle(p)", "bubble_point_line", "dew_point_line"][case.kind as usize % 4];
+    obs.class(kind_name);
+    let mut p_spec = None;
+    let dia = match case.kind % 4 {
+        0 => PhaseDiagram::binary_vle(&b.eos, b.t, Some(case.npoints), None, opts2),
+        1 => {
+            // pressure of the diagram: bubble pressure of the case composition at the case temperature
+            let p = match PhaseEquilibrium::bubble_point(&b.eos, b.t, &b.x, None, None, default2()) {
+                Ok(pe) => p_of(&pe),
+                Err(e) => {
+                    obs.discard(format!("no bubble pressure for the p-diagram: {}", err_name(&e)));
+                    return;
+                }
+            };
+            p_spec = Some(p);
+            PhaseDiagram::binary_vle(&b.eos, Pressure::from_reduced(p), Some(case.npoints), None, opts2)
+        }
+        2 => PhaseDiagram::bubble_point_line(&b.eos, &(b.x.clone() * MOL), b.t, case.npoints, None, opts2),
+        _ => PhaseDiagram::dew_point_line(&b.eos, &(b.x.clone() * MOL), b.t, case.npoints, None, opts2),
+    };
+    class_result(obs, kind_name, &dia);
+    let Ok(dia) = dia else { return };
+    let ns = dia.states.len();
+    obs.class(if ns == case.npoints { "all points found" } else { "points missing" });
+    let mut regular = 0;
+    let mut kdev_max = 0.0f64;
+    for (k, pe) in dia.states.iter().enumerate() {
+        if (k == 0 || k + 1 == ns) && is_identical(pe) {
+            obs.class("critical end point (identical phases by construction)");
+            continue;
+        }
+        // the lines run up to the mixture critical point; beyond 0.95 T_c,low (the temperature range
+        // of the property's quantifier) the Newton Jacobians degenerate: 100 x looser, own statistics
+        let lo = b.tc.iter().cloned().fold(f64::INFINITY, f64::min);
+        let beyond = pe.vapor().temperature.convert_to(KELVIN) > 0.95 * lo;
+        let tag_s = if beyond { format!("{kind_name} (T > 0.95 Tc_low)") } else { kind_name.to_string() };
+        let tag = tag_s.as_str();
+        let tol = if beyond { Tols { fug: 100.0 * tol.fug, p_rel: 100.0 * tol.p_rel, p_abs: 100.0 * tol.p_abs } } else { tol };
+        if beyond {
+            obs.class("diagram state beyond 0.95 Tc_low");
+        }
+        let ok = check_phases(obs, tag, Kind::BubbleDew, &[pe.vapor(), pe.liquid()], &tol);
+        match case.kind % 4 {
+            0 => check_t_spec(obs, tag, &[pe.vapor(), pe.liquid()], b.t),
+            1 => {
+                if ok {
+                    check_p_spec(obs, tag, &[pe.vapor(), pe.liquid()], p_spec.unwrap(), &tol)
+                }
+            }
+            2 => check_composition(obs, tag, &pe.liquid().molefracs, &b.x),
+            _ => check_composition(obs, tag, &pe.vapor().molefracs, &b.x),
+        }
+        regular += 1;
+        if pe.liquid().molefracs.iter().all(|&x| x > 0.0) {
+            let kf = &pe.vapor().molefracs / &pe.liquid().molefracs;
+            kdev_max = kdev_max.max(kf.iter().fold(f64::INFINITY, |m: f64, ki| m.min((ki - 1.0).abs())));
+        }
+    }
+    if regular >= 3 && kdev_max > 0.05 {
+        obs.nontrivial();
+    }
+}
+
+// ---------------------------------------------------------------------------------------
+// part `hetero`: water + alcohol / hydrocarbon
+// ---------------------------------------------------------------------------------------
+#[derive(Serialize, Deserialize, Clone, Debug)]
+pub struct HeteroCase {
+    pub spec: ModelSpec,
+    /// K
+    pub t: f64,
+    /// initial water mole fractions of the two liquids
+    pub x_init: (f64, f64),
+    /// 0 heteroazeotrope(T), 1 heteroazeotrope(p), 2 binary_vlle(T) incl. lle, 3 PhaseDiagram::lle, 4 LLE flash
+    pub kind: u8,
+    pub opts: SolverOpt,
+    pub inner: SolverOpt,
+    pub outer: SolverOpt,
+    pub t_init_rel: f64,
+    pub npoints: usize,
+    /// pressure factor above the three-phase pressure for lle / LLE flash
+    pub p_up: f64,
+}
+
+const ORGANICS_2002: [&str; 11] = [
+    "1-butanol", "1-pentanol", "1-hexanol", "1-heptanol", "1-octanol", "1-nonanol", "methanol", "ethanol", "1-propanol", "2-propanol",
+    "2-methyl-2-butanol",
+];
+const ORGANICS_2001: [&str; 10] = [
+    "hexane", "pentane", "heptane", "octane", "decane", "cyclohexane", "benzene", "toluene", "1-hexene", "ethylbenzene",
+];
+
+fn find_rec(file_idx: usize, name: &str) -> Option<Value> {
+    POOLS.pcsaft[file_idx].1.iter().find(|r| rec_name(r) == name).cloned()
+}
+
+pub fn decode_hetero(g: &mut Gen) -> HeteroCase {
+    let water = find_rec(1, "water").expect("gross2002 water");
+    let alcohol = g.bool(0.5);
+    let org = if alcohol {
+        find_rec(1, g.pick(&ORGANICS_2002)).expect("gross2002 record")
+    } else {
+        find_rec(0, g.pick(&ORGANICS_2001)).expect("gross2001 record")
+    };
+    let mut binary = vec![];
+    if let Some(bv) = shipped_binary(&POOLS.pcsaft_binary, &water, &org) {
+        binary.push((0, 1, bv));
+    } else if g.bool(0.6) {
+        binary.push((0, 1, json!({"k_ij": g.range(-0.08, 0.08)})));
+    }
+    let spec = ModelSpec {
+        family: Family::PcSaft,
+        pure: vec![water, org],
+        binary,
+        seg: None,
+        opts: Opts::default(),
+        source: (if alcohol { "water+alcohol" } else { "water+hydrocarbon" }).to_string(),
+    };
+    let t = g.range(290.0, 420.0);
+    let xa = 1.0 - g.log_range(1e-5, 0.1);
+    let xb = g.log_range(1e-4, 0.6);
+    let x_init = if g.bool(0.3) { (xb, xa) } else { (xa, xb) };
+    HeteroCase {
+        spec,
+        t,
+        x_init,
+        kind: g.index(5) as u8,
+        opts: gen_opt(g, 0.3, (10, 200), (1e-10, 1e-7)),
+        inner: gen_opt(g, 0.2, (2, 20), (1e-11, 1e-7)),
+        outer: gen_opt(g, 0.2, (30, 800), (1e-12, 1e-8)),
+        t_init_rel: g.range(0.97, 1.03),
+        npoints: g.int(5, 30) as usize,
+        p_up: g.log_range(1.1, 20.0),
+    }
+}
+
+fn check_vlle(obs: &mut Obs, tag: &str, v: &Pe3, tol: &Tols) -> bool {
+    check_phases(obs, tag, Kind::Hetero, &[v.vapor(), v.liquid1(), v.liquid2()], tol)
+}
+
+pub fn check_hetero(case: &HeteroCase, obs: &mut Obs) {
+    let spec = &case.spec;
+    set_label(format!("water+{} k_ij {:?} T {} x_init {:?} kind {}", rec_name(&spec.pure[1]), spec.binary.first().map(|b| b.2.clone()), case.t, case.x_init, case.kind));
+    obs.class(format!("source:{}", spec.source));
+    obs.class(format!("organic:{}", rec_name(&spec.pure[1])));
+    if !spec.binary.is_empty() {
+        obs.class("k_ij");
+    }
+    let eos = match spec.build() {
+        Ok(m) => m,
+        Err(e) => {
+            obs.discard(format!("build:{}", e.chars().take(40).collect::<String>()));
+            return;
+        }
+    };
+    let t = case.t * KELVIN;
+    let opts2 = (case.inner.to(), case.outer.to());
+    let tol = tols_hetero(&case.opts);
+    let kind_name = ["heteroazeotrope(T)", "heteroazeotrope(p)", "binary_vlle(T)", "PhaseDiagram::lle", "LLE flash"][case.kind as usize % 5];
+    obs.class(kind_name);
+    // three-phase point at T (default options) as the anchor of all kinds
+    let base = PhaseEquilibrium::heteroazeotrope(&eos, t, case.x_init, None, case.opts.to(), opts2);
+    class_result(obs, "heteroazeotrope(T)", &base);
+    let mut usable = false;
+    if let Ok(v) = &base {
+        usable = check_vlle(obs, "heteroazeotrope(T)", v, &tol);
+        check_t_spec(obs, "heteroazeotrope(T)", &[v.vapor(), v.liquid1(), v.liquid2()], t);
+        let dx = (v.liquid1().molefracs[0] - v.liquid2().molefracs[0]).abs();
+        if dx > 0.05 {
+            obs.nontrivial();
+        }
+    }
+    let Ok(v0) = base else { return };
+    if !usable {
+        return;
+    }
+    let p3 = pressure_red(v0.vapor());
+    let (xl1, xl2) = (v0.liquid1().molefracs[0], v0.liquid2().molefracs[0]);
+    match case.kind % 5 {
+        0 => {}
+        1 => {
+            let r = PhaseEquilibrium::heteroazeotrope(
+                &eos,
+                Pressure::from_reduced(p3),
+                case.x_init,
+                Some(t * case.t_init_rel),
+                case.opts.to(),
+                opts2,
+            );
+            class_result(obs, kind_name, &r);
+            if let Ok(v) = &r {
+                check_vlle(obs, kind_name, v, &tol);
+                check_p_spec(obs, kind_name, &[v.vapor(), v.liquid1(), v.liquid2()], p3, &tol);
+            }
+        }
+        2 => {
+            let r = PhaseDiagram::binary_vlle(
+                &eos,
+                t,
+                case.x_init,
+                Some(Pressure::from_reduced(p3 * case.p_up)),
+                None,
+                Some(case.npoints),
+                Some(case.npoints.min(10)),
+                opts2,
+            );
+            match &r {
+                Ok(_) => obs.class(format!("{kind_name}:Ok")),
+                Err(e) => obs.class(format!("{kind_name}:Err {}", err_name(e))),
+            }
+            if let Ok(d) = &r {
+                let tb = tols_bubble(&case.outer);
+                for (name, dia) in [("binary_vlle.vle1", Some(&d.vle1)), ("binary_vlle.vle2", Some(&d.vle2)), ("binary_vlle.lle", d.lle.as_ref())] {
+                    let Some(dia) = dia else { continue };
+                    for pe in dia.states.iter() {
+                        let tl = if name.ends_with("lle") { tols_flash(&SolverOpt::default()) } else { tb };
+                        let kd = if name.ends_with("lle") { Kind::Flash } else { Kind::BubbleDew };
+                        check_phases(obs, name, kd, &[pe.vapor(), pe.liquid()], &tl);
+                        check_t_spec(obs, name, &[pe.vapor(), pe.liquid()], t);
+                    }
+                }
+            }
+        }
+        3 | 4 => {
+            let xf = 0.5 * (xl1 + xl2);
+            let feed = arr1(&[xf, 1.0 - xf]) * MOL;
+            let tf = tols_flash(&SolverOpt::default());
+            if case.kind % 5 == 3 {
+                let r = PhaseDiagram::lle(
+                    &eos,
+                    t,
+                    &feed,
+                    Pressure::from_reduced(p3 * 1.05),
+                    Pressure::from_reduced(p3 * case.p_up.max(1.1)),
+                    Some(case.npoints),
+                );
+                class_result(obs, kind_name, &r);
+                if let Ok(d) = &r {
+                    obs.class(if d.states.len() == case.npoints { "all points found" } else { "points missing" });
+                    for pe in d.states.iter() {
+                        check_phases(obs, kind_name, Kind::Flash, &[pe.vapor(), pe.liquid()], &tf);
+                        check_t_spec(obs, kind_name, &[pe.vapor(), pe.liquid()], t);
+                    }
+                }
+            } else {
+                let p = p3 * case.p_up;
+                let r = PhaseEquilibrium::tp_flash(&eos, t, Pressure::from_reduced(p), &feed, None, SolverOptions::default(), None);
+                class_result(obs, kind_name, &r);
+                if let Ok(pe) = &r {
+                    check_flash(obs, kind_name, pe, t, p, &feed.to_reduced(), &tf);
+                }
+            }
+        }
+        _ => {}
+    }
+}
+
+// ---------------------------------------------------------------------------------------
+const PART_POINTS: PartCfg = PartCfg {
+    name: "points",
+    genome_len: 64,
+    cases_quick: 6000,
+    cases_thorough: 600_000,
+    panic: PanicPolicy::Count,
+};
+const PART_DIAGRAM: PartCfg = PartCfg {
+    name: "diagram",
+    genome_len: 64,
+    cases_quick: 400,
+    cases_thorough: 40_000,
+    panic: PanicPolicy::Count,
+};
+const PART_HETERO: PartCfg = PartCfg {
+    name: "hetero",
+    genome_len: 48,
+    cases_quick: 1000,
+    cases_thorough: 100_000,
+    panic: PanicPolicy::Count,
+};
+
+/// calibration knob VERIF_SCALE=k: k x the quick case counts (not used by registered commands)
+pub fn scaled(p: &PartCfg) -> PartCfg {
+    let k: f64 = std::env::var("VERIF_SCALE").ok().and_then(|s| s.parse().ok()).unwrap_or(1.0);
+    PartCfg {
+        name: p.name,
+        genome_len: p.genome_len,
+        cases_quick: (p.cases_quick as f64 * k) as u32,
+        cases_thorough: p.cases_thorough,
+        panic: p.panic,
+    }
+}
+
+pub fn run(ctx: &Ctx) {
+    ctx.set_rule("lattice (seed-independent, success clause): hydrocarbon pairs of gross2001 (formula only C,H) with pure-T_c ratio < 1.5 x T/T_c,low in {0.65,..,0.9} x x_1 in {0.05,0.2,..,0.95}; each case = bubble(T,x) + dew(T,x) + flashes at p = p_dew + theta (p_bub - p_dew), theta in {0.1,0.5,0.9} when p_bub/p_dew > 1.05 (narrower envelopes excluded and counted as a class); quick tier: every 4th admissible pair, thorough: all pairs. points (sampled): binary/ternary mixtures of shipped PC-SAFT hydrocarbons (all files), other PC-SAFT records of the small files, gc-PC-SAFT (gc_substances x 3 segment tables), SAFT-VR Mie (lafitte2013); partner records chosen with T_c ratio < 1.8; k_ij in +-0.08 (p 0.6) or the shipped binary record; T/T_c,low in [0.6,0.95]; composition in the simplex with x_i >= 0.02; option pairs (inner max_iter 2-20, tol 1e-11..1e-7; outer 30-800, 1e-12..1e-8; flash 20-800, 1e-11..1e-6), initial pressure within a factor 3, perturbed incipient composition, p-specification with initial T within 5 %, flash initial states, State::tp_flash vs PhaseEquilibrium::tp_flash, feed amount 1e-2..1e2 mol. diagram (sampled): binary_vle at given T / at given p, bubble_point_line, dew_point_line with npoints in [5,60]. hetero (sampled): gross2002 water + 11 alcohols / 10 hydrocarbons, 290-420 K: heteroazeotrope(T), heteroazeotrope(p), binary_vlle, PhaseDiagram::lle, liquid-liquid tp_flash. Non-trivial: a flash with vapor fraction in (0.02,0.98) and all |K_i - 1| > 5 %; or >= 2 checked bubble/dew results with |K_i - 1| > 5 % of which one used a non-default option or guess; diagrams: >= 3 regular states with |K_i-1| > 5 %; hetero: liquids differing by > 0.05 in x_water. Distinct by hash of the canonical case JSON.");
+    ctx.assume("every condition is recomputed from fresh states State::new_nvt(T,V,N) of the returned phases (public getters ln_phi, molefracs, pressure)");
+    ctx.assume("fugacity equality is tested on ln f_i = ln(x_i phi_i p) (tolerance 1e-6 = 100 x the flash tolerance, or 100 x a looser sampled tolerance) and pressure equality separately (1e-7 relative + an absolute term in reduced units: 1e-10 flash = 100 x the density-iteration tolerance, 1e-7 bubble/dew = 1000 x TOL_OUTER, 1e-6 heteroazeotrope = 100 x TOL_HETERO; diagram states above 0.95 T_c,low, outside the temperature range of the quantifier, 100 x looser): ln(x_i phi_i) alone contains -ln p of each phase, so a pressure roundoff of a liquid at vanishing pressure would otherwise show up as a fugacity mismatch");
+    ctx.assume("the critical end point appended by binary_vle / bubble_point_line / dew_point_line (two bitwise identical states by construction) is exempt from the 'not copies' clause");
+    ctx.assume("p_bubble >= p_dew is asserted only where both results are vapor-liquid pairs (rho_v < rho_l / 2) of phases that is_stable reports stable: models with a liquid-liquid split have metastable bubble/dew branches on which the inequality is not a theorem (relies on C07); never for the water systems of the hetero part");
+    ctx.assume("success clause domain as stated in DESIGN.md C05; T_c of the pure records from State::critical_point (cached), validated by C06");
+    // lattice
+    // calibration knobs (not used by registered commands): C05_PARTS=lattice,points,... C05_STRIDE=n
+    let parts = std::env::var("C05_PARTS").unwrap_or_else(|_| "lattice,points,diagram,hetero".into());
+    let on = |p: &str| parts.split(',').any(|q| q == p);
+    let stride = std::env::var("C05_STRIDE").ok().and_then(|s| s.parse().ok()).unwrap_or(ctx.pick(4, 1));
+    if on("lattice") {
+        let items = lattice_items(stride);
+        ctx.extra("lattice_pairs", json!(items.len() / (LATTICE_T.len() * LATTICE_X.len())));
+        ctx.run_lattice("lattice", items, PanicPolicy::Violation, stride == 1, &check_lattice);
+    }
+    if on("points") {
+        ctx.run_sampled(&scaled(&PART_POINTS), &decode_points, &check_points);
+    }
+    if on("diagram") {
+        ctx.run_sampled(&scaled(&PART_DIAGRAM), &decode_diagram, &check_diagram);
+    }
+    if on("hetero") {
+        ctx.run_sampled(&scaled(&PART_HETERO), &decode_hetero, &check_hetero);
+    }
+    ctx.extra("worst_observed", worst_json());
+}
+
+pub fn replay(ctx: &Ctx, part: &str, case: &Value) -> bool {
+    let ok = match part {
+        "lattice" => ctx.replay_case::<LatticeCase>(case, &check_lattice),
+        "points" => ctx.replay_case::<PointsCase>(case, &check_points),
+        "diagram" => ctx.replay_case::<DiagramCase>(case, &check_diagram),
+        "hetero" => ctx.replay_case::<HeteroCase>(case, &check_hetero),
+        other => {
+            eprintln!("unknown part {other}");
+            std::process::exit(2);
+        }
+    };
+    println!("worst: {}", worst_json());
+    ok
 }
